@@ -70,18 +70,15 @@ Definition step_spec (c : cfgT) (w : wobs) (v : sview) : bool :=
 
 Definition spec (c : case) : bool := along_views (step_spec (c_cfg c)) (w0 c) (c_steps c).
 Definition wf := LC.wf.
-(* known finding 1: a recursive-bind import whose mountpoint lies ABOVE the mountpoint of an
-   earlier import of the same layer: submounts of the host source are copied by the kernel on
-   top of the earlier import (imports are mounted in configuration order) *)
-Definition rbind_over_earlier (x : layer) : bool :=
-  (fix go (seen : list bytes) (ms : list nmount) : bool :=
-     match ms with
-     | [] => false
-     | nm :: r =>
-       (beq (nm_fstype nm) (bs "rbind") && existsb (fun p => under (nm_mount nm) p) seen)
-       || go (nm_mount nm :: seen) r
-     end) [] (l_mounts x).
+(* known finding 1: a recursive-bind import whose mountpoint lies ABOVE the mountpoint of
+   another import of the same layer (earlier or later in the configuration): the kernel copies
+   the submounts of the host source -- stacked ones included -- onto that other mountpoint, on
+   top of the earlier import or in place of the later one *)
+Definition rbind_over_other (x : layer) : bool :=
+  existsb (fun nm => beq (nm_fstype nm) (bs "rbind")
+                     && existsb (fun other => under (nm_mount nm) (nm_mount other)) (l_mounts x))
+          (l_mounts x).
 Definition kf (c : case) : N :=
-  if existsb rbind_over_earlier (layers_on_disk (c_cfg c) (c_fs0 c)) then 1 else 0.
+  if existsb rbind_over_other (layers_on_disk (c_cfg c) (c_fs0 c)) then 1 else 0.
 Definition verdict (c : case) : N := mkverdict (wf c) (LC.corr c) (spec c) (kf c).
 End C01.
